@@ -20,7 +20,7 @@ def polyVolCentroid (pp : Nat → V3 Rat) (fs : List (List Nat)) : Rat :=
 def handle : List String → Option String
   | "c18.poly" :: rest => do
     let (fixed, m) ← run (do let b ← bool; let m ← meshP; pure (b, m)) rest
-    let cfg : Cfg := ⟨fixed⟩
+    let cfg : Cfg := ⟨fixed, true⟩
     let pt := ptOf m
     let pp := ptPos m
     let rows := (flatten m.elemBlocks).mapM fun e => do
@@ -50,6 +50,20 @@ def handle : List String → Option String
     let after := es.map (makePositive (0 : Rat) pt)
     some ("ok " ++ showElems after ++ " " ++ showList (fun (e : Elem) => showRat (tetVol6 (0 : Rat) pt e.conn / 6)) es
       ++ " " ++ showList (fun (e : Elem) => showRat (tetVol6 (0 : Rat) pt e.conn / 6)) after)
+  | "c18.hist" :: rest => do
+    -- c18.hist <freshMetric> <mesh> <ops>: ops = list of `m r a` | `v r a` | `p`; reply: connectivity after the history
+    let (fresh, m, ops) ← run (do
+      let b ← bool; let m ← meshP
+      let ops ← listOf (do
+        let t ← tok
+        if t = "m" then do let r ← bool; let a ← bool; pure (HOp.metrics r a)
+        else if t = "v" then do let r ← bool; let a ← bool; pure (HOp.volumes r a)
+        else if t = "p" then pure HOp.positive
+        else failure)
+      pure (b, m, ops)) rest
+    let pt := ptOf m
+    let s := runH (⟨true, fresh⟩ : Cfg) (0 : Rat) pt (fresh0 m.elemBlocks.flatten) ops
+    some ("ok " ++ showElems s.elems ++ " " ++ showList (fun (e : Elem) => showRat (tetVol6 (0 : Rat) pt e.conn / 6)) s.elems)
   | "c18.pos" :: rest => do
     let (ids, x) ← run (do let l ← listOf nat; let x ← nat; pure (l, x)) rest
     some ("ok " ++ showOpt toString (posOf ids x) ++ " " ++ toString (rankOf ids x))
